@@ -29,10 +29,10 @@ Theorem C06_array_of_total : forall A (c : codec A) mn mx, mx <= alloc_cap -> co
 Proof. exact array_c06. Qed.
 Print Assumptions C06_array_of_total.
 
-Theorem C06_parse_total_Address : forall addr_ok, c06_ok (c_address addr_ok).
+Theorem C06_parse_total_Address : forall addr_norm, addr_norm_sound addr_norm -> c06_ok (c_address addr_norm).
 Proof. exact address_c06. Qed.
 Print Assumptions C06_parse_total_Address.
-Theorem C06_parse_total_Output : forall addr_ok, c06_ok (c_output addr_ok).
+Theorem C06_parse_total_Output : forall addr_norm, addr_norm_sound addr_norm -> c06_ok (c_output addr_norm).
 Proof. exact output_c06. Qed.
 Print Assumptions C06_parse_total_Output.
 Theorem C06_parse_total_BtcTx : c06_ok c_btctx.
@@ -53,19 +53,19 @@ Print Assumptions C06_parse_total_VbkMerklePath.
 Theorem C06_parse_total_PublicationData : c06_ok c_pubdata.
 Proof. exact pubdata_c06. Qed.
 Print Assumptions C06_parse_total_PublicationData.
-Theorem C06_parse_total_VbkTx : forall addr_ok, c06_ok (c_vbktx addr_ok).
+Theorem C06_parse_total_VbkTx : forall addr_norm, addr_norm_sound addr_norm -> c06_ok (c_vbktx addr_norm).
 Proof. exact vbktx_c06. Qed.
 Print Assumptions C06_parse_total_VbkTx.
-Theorem C06_parse_total_VbkPopTx : forall addr_ok, c06_ok (c_vbkpoptx addr_ok).
+Theorem C06_parse_total_VbkPopTx : forall addr_norm, addr_norm_sound addr_norm -> c06_ok (c_vbkpoptx addr_norm).
 Proof. exact vbkpoptx_c06. Qed.
 Print Assumptions C06_parse_total_VbkPopTx.
-Theorem C06_parse_total_ATV : forall addr_ok, c06_ok (c_atv addr_ok).
+Theorem C06_parse_total_ATV : forall addr_norm, addr_norm_sound addr_norm -> c06_ok (c_atv addr_norm).
 Proof. exact atv_c06. Qed.
 Print Assumptions C06_parse_total_ATV.
-Theorem C06_parse_total_VTB : forall addr_ok, c06_ok (c_vtb addr_ok).
+Theorem C06_parse_total_VTB : forall addr_norm, addr_norm_sound addr_norm -> c06_ok (c_vtb addr_norm).
 Proof. exact vtb_c06. Qed.
 Print Assumptions C06_parse_total_VTB.
-Theorem C06_parse_total_PopData : forall addr_ok, c06_ok (c_popdata addr_ok).
+Theorem C06_parse_total_PopData : forall addr_norm, addr_norm_sound addr_norm -> c06_ok (c_popdata addr_norm).
 Proof. exact popdata_c06. Qed.
 Print Assumptions C06_parse_total_PopData.
 Theorem C06_parse_total_AltBlock : c06_ok c_altblock.
